@@ -24,6 +24,7 @@ type histMode struct {
 	gen       hist.GenConfig
 	oracle    func(h *hist.History, o *hist.Outcome) []hist.Problem
 	roracle   func(r *hist.Run) []hist.Problem // oracle that needs the recorded traffic
+	serverDoc bool                             // compare server-side rebuilds with the change-by-change replica
 	smallSnap bool                             // half of the histories run on projects with tiny snapshot interval/threshold
 	proto     bool                             // emit protocol-model cases
 	twin      string                           // "", "nogc"
@@ -57,6 +58,13 @@ func modeFor(prop string) (*histMode, error) {
 	case "C03":
 		return &histMode{flavors: []string{"array", "arraymove", "text", "object", "mixed"}, twin: "nogc",
 			gen: hist.GenConfig{MinClients: 2, MaxClients: 4, MinSteps: 8, MaxSteps: 40, PushOnly: true, Inflight: true},
+			oracle: func(h *hist.History, o *hist.Outcome) []hist.Problem {
+				return append(baseOracle(h, o), hist.CheckConvergence(o)...)
+			}}, nil
+	case "C10":
+		return &histMode{flavors: []string{"object", "array", "arraymove", "text", "counter", "mixed"}, proto: true,
+			gen:       hist.GenConfig{MinClients: 2, MaxClients: 4, MinSteps: 8, MaxSteps: 35, Detach: true, Compact: true, PushOnly: true, Late: true},
+			smallSnap: true, serverDoc: true,
 			oracle: func(h *hist.History, o *hist.Outcome) []hist.Problem {
 				return append(baseOracle(h, o), hist.CheckConvergence(o)...)
 			}}, nil
@@ -155,7 +163,7 @@ func runHist(cfg *config) error {
 		return err
 	}
 	defer srvNoGC.Stop()
-	rn := &hist.Runner{S: srv, ServerDoc: mode.twin == "nosnap"}
+	rn := &hist.Runner{S: srv, ServerDoc: mode.twin == "nosnap" || mode.serverDoc, ServerDocSparse: mode.serverDoc}
 	rnNoGC := &hist.Runner{S: srvNoGC}
 	res := newResult("hist", cfg.seed)
 	r := rng.New(cfg.seed)
@@ -296,6 +304,9 @@ func runHist(cfg *config) error {
 		}
 		if len(res.Samples) < 2 {
 			res.Samples = append(res.Samples, map[string]any{"history": h, "final": o.Final})
+		}
+		if lastRun != nil && lastRun.Compactions > 0 {
+			res.Dist["compactions.done"] += lastRun.Compactions
 		}
 		if mode.proto && lastRun != nil {
 			if c, ok := lastRun.ProtoCase(); ok {
